@@ -195,103 +195,130 @@ def size(c):
     return (len(c["entries"]), len(c["ups"]), len(c.get("pdefs", [])), 1 if c.get("add") else 0)
 
 
+class Tally:
+    """verdict bookkeeping across batches: counters, and per class the two smallest witnesses"""
+
+    def __init__(self, comment_fixed):
+        self.comment_fixed = comment_fixed
+        self.per = collections.Counter()
+        self.nontrivial = self.noop = self.noop_same = self.total = 0
+        self.viol = {}      # class -> [count, [(size, bad, case, obs)]]
+        self.known = {}
+        self.samples = {"npm": [], "maven": []}
+
+    @staticmethod
+    def _add(d, cls, item):
+        e = d.setdefault(cls, [0, []])
+        e[0] += 1
+        e[1].append(item)
+        e[1].sort(key=lambda x: x[0])
+        del e[1][2:]
+
+    def batch(self, cases, obs):
+        if len(obs) != len(cases):
+            raise vf.NotAVerdict("harness returned %d of %d cases" % (len(obs), len(cases)))
+        insane = [o for o in obs if not o["sane"]]
+        if insane:
+            o = insane[0]
+            raise vf.NotAVerdict("renderer/reader sanity failed on %d cases, e.g. %s: %s" % (len(insane), describe(cases[o["i"]]), o["why"]))
+        for o in obs:
+            c = cases[o["i"]]
+            self.total += 1
+            self.per[c["eco"]] += 1
+            if c["ups"]:
+                self.nontrivial += 1
+                if len(self.samples[c["eco"]]) < 2 and self.nontrivial % 977 == 1:
+                    self.samples[c["eco"]].append(c)
+            else:
+                self.noop += 1
+                self.noop_same += 1 if o["same_bytes"] else 0
+            if c["eco"] == "npm":
+                bad = judge_npm(c, o)
+                if bad:
+                    self._add(self.viol, "npm " + tags(bad), (size(c), bad, c, o))
+                continue
+            bad = judge_maven(c, o)
+            if not bad:
+                continue
+            devs = list(c.get("devs") or [])
+            if predicted_lost(c, self.comment_fixed):
+                devs.append(COMMENT)
+            if devs and matches_asbuilt(c, o, self.comment_fixed):
+                for d in devs:
+                    self._add(self.known, d, (size(c), bad, c, o))
+                continue
+            self._add(self.viol, "maven " + tags(bad) + ((" in a scenario of " + "+".join(devs) + " but not as that predicts") if devs else ""),
+                      (size(c), bad, c, o))
+
+
 def main():
     a = args.parse()
     ck = vf.Check("C13", "model_checking", tier=a.tier, seed=a.seed)
-    cases = []
     fixed = fixed_findings()
-    comment_fixed = COMMENT in fixed
+    tally = Tally(COMMENT in fixed)
     import tempfile, shutil
     cfgdir = tempfile.mkdtemp(prefix="c13cfg-")
-    if a.replay:
-        rec = json.load(open(a.replay))["replay"]
-        cases = [rec["case"]]
-    else:
-        ecos = [e for e in ("npm", "maven") if os.environ.get("C13_ONLY", e) == e]   # development aid
-        for eco in ecos:
-            s = vf.tlc("ManifestWrite", cfg_with_devs("ManifestWrite-%s-sanity.cfg" % eco, fixed, cfgdir)[0], workers=2, collect=False, timeout=120)
-            if s.violated != "Sanity":
-                raise vf.NotAVerdict("sanity invariant not violated for %s: vacuous model" % eco)
-        cfgs = THOROUGH if ck.thorough() else QUICK
-        for eco in ecos:
-            for cfg in cfgs[eco]:
-                cfgp, txt = cfg_with_devs(cfg, fixed, cfgdir)
-                r = vf.require_ok(vf.tlc("ManifestWrite", cfgp, timeout=1500), cfg)
-                ck.add_tlc(cfg, r, txt.split("SPECIFICATION")[0].strip())
-                for c in r.cases:
-                    c["cfg"] = cfg
-                cases += r.cases
     if os.path.isdir("/dev/shm") and os.access("/dev/shm", os.W_OK):
-        import tempfile
-        tempfile.tempdir = "/dev/shm"      # scratch of the harness: ~50k small files, 6x faster on tmpfs; removed by run_harness
-    shutil.rmtree(cfgdir, ignore_errors=True)
-    obs = vf.run_harness("vmanifest", "write", cases, timeout=1500)
-    if len(obs) != len(cases):
-        raise vf.NotAVerdict("harness returned %d of %d cases" % (len(obs), len(cases)))
-    insane = [o for o in obs if not o["sane"]]
-    if insane:
-        o = insane[0]
-        raise vf.NotAVerdict("renderer/reader sanity failed on %d cases, e.g. %s: %s" % (len(insane), describe(cases[o["i"]]), o["why"]))
-    per = collections.Counter()
-    nontrivial = 0
-    noop = 0
-    byte_equal_noop = 0
-    viol = collections.defaultdict(list)     # class -> [(size, text, replay)]
-    known = collections.defaultdict(list)
-    for o in obs:
-        c = cases[o["i"]]
-        per[c["eco"]] += 1
-        if c["ups"]:
-            nontrivial += 1
+        harness_tmp = "/dev/shm"      # scratch of the harness: many small files, 6x faster on tmpfs; removed by run_harness
+    else:
+        harness_tmp = None
+
+    def replay(cases):
+        old = tempfile.tempdir
+        tempfile.tempdir = harness_tmp
+        try:
+            obs = vf.run_harness("vmanifest", "write", cases, timeout=1500)
+        finally:
+            tempfile.tempdir = old
+        tally.batch(cases, obs)
+
+    try:
+        if a.replay:
+            rec = json.load(open(a.replay))["replay"]
+            replay([rec["case"]])
         else:
-            noop += 1
-            byte_equal_noop += 1 if o["same_bytes"] else 0
-        if c["eco"] == "npm":
-            bad = judge_npm(c, o)
-            if bad:
-                viol["npm " + tags(bad)].append((size(c), bad, c, o))
-            continue
-        bad = judge_maven(c, o)
-        if not bad:
-            continue
-        devs = list(c.get("devs") or [])
-        if predicted_lost(c, comment_fixed):
-            devs.append(COMMENT)
-        if devs and matches_asbuilt(c, o, comment_fixed):
-            for d in devs:
-                known[d].append((size(c), bad, c, o))
-            continue
-        viol["maven " + tags(bad) + ((" in a scenario of " + "+".join(devs) + " but not as that predicts") if devs else "")].append((size(c), bad, c, o))
+            ecos = [e for e in ("npm", "maven") if os.environ.get("C13_ONLY", e) == e]   # development aid
+            for eco in ecos:
+                s = vf.tlc("ManifestWrite", cfg_with_devs("ManifestWrite-%s-sanity.cfg" % eco, fixed, cfgdir)[0], workers=2, collect=False, timeout=120)
+                if s.violated != "Sanity":
+                    raise vf.NotAVerdict("sanity invariant not violated for %s: vacuous model" % eco)
+            cfgs = THOROUGH if ck.thorough() else QUICK
+            for eco in ecos:
+                for cfg in cfgs[eco]:
+                    cfgp, txt = cfg_with_devs(cfg, fixed, cfgdir)
+                    r = vf.require_ok(vf.tlc("ManifestWrite", cfgp, timeout=1500), cfg)
+                    ck.add_tlc(cfg, r, txt.split("SPECIFICATION")[0].strip())
+                    replay(r.cases)      # batch by batch: bounded memory
+                    r.cases = None
+    finally:
+        shutil.rmtree(cfgdir, ignore_errors=True)
     # known findings: suppressed only when listed open; otherwise reported as violations (smallest witnesses)
-    for fid, lst in sorted(known.items()):
-        lst.sort(key=lambda x: x[0])
+    viol = dict(tally.viol)
+    for fid, (n, lst) in sorted(tally.known.items()):
         listed = False
-        for _ in lst:
+        for _ in range(n):
             listed = ck.known_finding(fid, FINDINGS.get(fid, "")) or listed
         if not listed:
-            viol["finding " + fid + " (not listed open in known_findings.json): " + FINDINGS.get(fid, "")] += lst
-    for cls, lst in sorted(viol.items()):
-        lst.sort(key=lambda x: x[0])
+            viol["finding " + fid + " (not listed open in known_findings.json): " + FINDINGS.get(fid, "")] = [n, lst]
+    for cls, (n, lst) in sorted(viol.items()):
         for sz, bad, c, o in lst[:2]:
-            cc = {k: v for k, v in c.items() if k != "cfg"}
-            ck.violation("[%s; %d scenario(s) of this class] %s :: %s" % (cls, len(lst), describe(c), " | ".join(bad[:4])),
-                         {"case": cc, "observed": o, "class": cls, "problems": bad})
-    ck.count(len(cases))
-    ck.cov["distinct_nontrivial"] = nontrivial
-    ck.cov["traces_validated_against_impl"] = len(cases)
-    ck.cov["cases_replayed"] = dict(per)
+            ck.violation("[%s; %d scenario(s) of this class] %s :: %s" % (cls, n, describe(c), " | ".join(bad[:4])),
+                         {"case": c, "observed": o, "class": cls, "problems": bad})
+    ck.count(tally.total)
+    ck.cov["distinct_nontrivial"] = tally.nontrivial
+    ck.cov["traces_validated_against_impl"] = tally.total
+    ck.cov["cases_replayed"] = dict(tally.per)
     ck.cov["deviation_constants"] = {c: ("FALSE" if all(i in fixed for i in DEV if DEV[i] == c) else "TRUE") for c in sorted(set(DEV.values()))}
-    ck.cov["noop_cases"] = noop
-    ck.cov["noop_cases_byte_identical"] = byte_equal_noop
+    ck.cov["noop_cases"] = tally.noop
+    ck.cov["noop_cases_byte_identical"] = tally.noop_same
     ck.cov["exhaustive"] = True
     ck.cov["rule"] = ("every terminal state of ManifestWrite.tla under the cfg constants: documents (entries in canonical order over "
                       "sections x key classes x alias kinds / locations x version forms, property definition sets) x update sets "
                       "(<= MaxUps, every explored new version per form) x layout bundles; each replayed through the real Read, Write, Read; "
                       "non-trivial = non-empty update set; evaluations = cases replayed")
     for eco in ("npm", "maven"):
-        ecases = [c for c in cases if c["eco"] == eco and c["ups"]]
-        for c in ecases[:: max(1, len(ecases) // 2)][:2]:
-            ck.sample({k: v for k, v in c.items() if k != "cfg"})
+        for c in tally.samples[eco]:
+            ck.sample(c)
     ck.cov["not_explored"] = [
         "package.json: duplicate keys inside one object, keys spelled with JSON escapes, workspaces, non-registry specifiers, one key with different alias kinds in two sections, two aliases of one real package",
         "pom.xml: one groupId:artifactId:type:classifier declared twice in the same kind of section (addresses are then ambiguous), remote parents and dependencyManagement imports (network), parent version updates, plugin dependency updates (plugin sections are inert content), grandparents, nested property references, comments that contain '<project'",
